@@ -139,6 +139,21 @@ class SymFactory(object):
     def ref(self, name):
         return SRef(name)
 
+    def opt_derived(self, isnone, val):
+        """Optional whose none-ness is a function of other symbols (keeps invariants true by construction)."""
+        if isinstance(isnone, bool):
+            return None if isnone else val
+        return SOpt(isnone, val)
+
+    def select(self, idx, table, default):
+        """table: {concrete index tuple: value}; value at a (possibly symbolic) index, else default."""
+        from .sym import mk_ite, mk_and, mk_eq
+        out = default
+        for key, v in table.items():
+            c = mk_and(*[mk_eq(i, k) for i, k in zip(idx, key)])
+            out = mk_ite(c, v, out) if not isinstance(c, bool) else (v if c else out)
+        return out
+
     def func(self, ref):
         """A repo-level function/lambda given as source text is not supported; use objects."""
         raise NotImplementedError
@@ -183,7 +198,13 @@ class SymFactory(object):
         from .sym import mk_eq
         return mk_eq(a, b)
 
-    PI = None
+    def pi(self):
+        from .sym import PI
+        return PI
+
+    def eq_bool(self, a, b):
+        from .sym import mk_eq
+        return mk_eq(a, b)
 
     def lam(self, src, **free):
         """A Python lambda (source text) closed over the given free variables."""
@@ -365,6 +386,12 @@ class ConcFactory(object):
     def ref(self, name):
         return Opaque(name)
 
+    def opt_derived(self, isnone, val):
+        return None if isnone else val
+
+    def select(self, idx, table, default):
+        return table.get(tuple(int(i) for i in idx), default)
+
     def ufunc(self, name):
         return Applied(name)
 
@@ -391,6 +418,13 @@ class ConcFactory(object):
 
     def eq(self, a, b):
         return abs(a - b) <= 1e-9 * max(1.0, abs(a), abs(b))
+
+    def pi(self):
+        import math
+        return math.pi
+
+    def eq_bool(self, a, b):
+        return bool(a) == bool(b)
 
     def file(self, name, value):
         import os
